@@ -7,13 +7,16 @@ import gc
 import json
 import sys
 
+from unittest.mock import patch
+
 from vlib import core, l3
 from vlib.modelcheck import ModelCheck
 
 PROP = "C09"
 CTXS = ["file.a", "file.b"]
 FNS = ["f1", "f2"]
-KINDS = ["state", "event", "time", "service"]
+KINDS = ["state", "event", "time", "service", "mqtt", "webhook"]
+MQTT_TOPIC = "home/t"
 
 STATE_EXPR = "pyscript.e1 == '1' or pyscript.e1.old == '9' or pyscript.e1.a == 5 or pyscript.e2 == '7'"
 
@@ -35,6 +38,10 @@ def fn_src(ctx, name, gen, kinds, extra, indent="", service_first=False):
         L.append(f"{indent}@time_trigger({', '.join(specs)})")
     elif extra:
         L.append(f"{indent}@time_trigger({', '.join(repr(x) for x in extra)})")
+    if "mqtt" in kinds:
+        L.append(f"{indent}@mqtt_trigger({MQTT_TOPIC!r})")
+    if "webhook" in kinds:
+        L.append(f"{indent}@webhook_trigger('hook_{ctx.split('.')[1]}_{name}')")
     if "service" in kinds and not service_first:
         L.append(svc)
     if "shared" in kinds:
@@ -84,7 +91,7 @@ def gen(R):
     for _ in range(R.int(3, 14)):
         ctx = R.choice(CTXS[:nctx])
         k = R.weighted([(6, "define"), (2, "define_race"), (2, "del"), (1, "rebind"), (3, "cont_add"), (2, "cont_remove"), (1, "reload"), (1, "reload_fast"), (2, "load_race"), (1, "delete_file"),
-                        (4, "occ_state"), (4, "occ_event"), (3, "occ_time"), (2, "occ_service")])
+                        (4, "occ_state"), (4, "occ_event"), (3, "occ_time"), (2, "occ_service"), (2, "occ_mqtt"), (2, "occ_webhook")])
         if k == "define":
             g += 1
             kinds = [x for x in KINDS if R.bool()] or ["event"]
@@ -177,6 +184,46 @@ async def execute(case):
     files = {}
     for c in CTXS[: case["nctx"]]:
         files[f"{c.split('.')[1]}.py"] = f"CTX = {c!r}\n" + FACTORY
+    # recording fakes of Home Assistant's MQTT / webhook API boundary (as in C08)
+    subs = []  # (topic, handler)
+    hooks = {}
+    hook_errors = []
+
+    async def fake_subscribe(hass, topic, handler, qos=0, encoding="utf-8"):
+        ent = (topic, handler)
+        subs.append(ent)
+
+        def unsub():
+            if ent in subs:
+                subs.remove(ent)
+
+        return unsub
+
+    def fake_register(hass, domain, name, webhook_id, handler, local_only=False, allowed_methods=None):
+        if webhook_id in hooks:
+            hook_errors.append(webhook_id)
+            raise ValueError("Handler is already defined!")
+        hooks[webhook_id] = handler
+
+    def fake_unregister(hass, webhook_id):
+        hooks.pop(webhook_id, None)
+
+    with patch("homeassistant.components.mqtt.async_subscribe", fake_subscribe), patch(
+        "homeassistant.components.webhook.async_register", fake_register
+    ), patch("homeassistant.components.webhook.async_unregister", fake_unregister):
+        return await _execute(case, files, subs, hooks)
+
+
+async def _execute(case, files, subs, hooks):
+    from types import SimpleNamespace
+
+    from checks.c08 import FakeRequest
+    from custom_components.pyscript.eval import AstEval
+    from custom_components.pyscript.event import Event
+    from custom_components.pyscript.function import Function
+    from custom_components.pyscript.global_ctx import GlobalContextMgr
+    from custom_components.pyscript.state import State
+
     async with l3.Integ(files, legacy=case["legacy"], initial_states={"pyscript.e1": ("0", {"a": 1}), "pyscript.e2": ("0", {})}) as it:
         # the harness owns the schedule: State.get_service_params() (awaited while a @service decorator starts) really
         # suspends in production whenever service descriptions have to be loaded; here it suspends for a generated
@@ -313,7 +360,7 @@ async def execute(case):
                 if k in ("reload", "reload_fast"):
                     src = f"CTX = {ctx!r}\n" + FACTORY + "\n" + fn_src(ctx, "f1", op["gen"], op["kinds"], op["extra"], service_first=op["gen"] % 4 < 2) + "\n"
                     if op.get("dead"):
-                        src += fn_src(ctx, "f2", op["gen"] + 500, ["state", "event", "time", "service"], ["startup"]) + "\n"
+                        src += fn_src(ctx, "f2", op["gen"] + 500, list(KINDS), ["startup"]) + "\n"
                         src += "del f2\n" if op["dead"] == "del" else "f2 = 5\n"
                     with open(path, "w") as fh:
                         fh.write(src)
@@ -388,6 +435,21 @@ async def execute(case):
                 for (c, n, g_, kinds, extra) in m.live():
                     if "event" in kinds:
                         exp_runs.append([c, n, g_, "event", None])
+            elif k == "occ_mqtt":
+                msg = SimpleNamespace(topic=MQTT_TOPIC, payload=str(i), qos=0, retain=False)
+                for tp, h in list(subs):
+                    await h(msg)
+                await it.settle(1)
+                for (c, n, g_, kinds, extra) in m.live():
+                    if "mqtt" in kinds:
+                        exp_runs.append([c, n, g_, "mqtt", None])
+            elif k == "occ_webhook":
+                for hid, h in sorted(hooks.items()):
+                    await h(it.hass, hid, FakeRequest({"n": i}, True))
+                await it.settle(1)
+                for (c, n, g_, kinds, extra) in m.live():
+                    if "webhook" in kinds:
+                        exp_runs.append([c, n, g_, "webhook", None])
             elif k == "occ_service":
                 for (c, n, g_, kinds, extra) in m.live():
                     if "service" in kinds:
@@ -425,8 +487,12 @@ async def execute(case):
                 svc_exp.append("shared_svc")
             svc_exp = sorted(svc_exp)
             svc_obs = sorted(s for s in it.hass.services.async_services().get("pyscript", {}) if s[:2] in ("a_", "b_") or s == "shared_svc")
-            res_exp = {"q_e1": n_state, "q_e2": n_state, "event": n_event, "services": svc_exp}
-            res_obs = {"q_e1": q_e1, "q_e2": q_e2, "event": (ev_q if case["legacy"] else bus), "services": svc_obs}
+            n_mqtt = sum(1 for x in live if "mqtt" in x[3])
+            # the legacy subsystem shares one subscription per topic, the new one subscribes per decorator
+            mqtt_exp = min(n_mqtt, 1) if case["legacy"] else n_mqtt
+            hooks_exp = sorted(f"hook_{c.split('.')[1]}_{n}" for (c, n, g_, kinds, extra) in live if "webhook" in kinds)
+            res_exp = {"q_e1": n_state, "q_e2": n_state, "event": n_event, "services": svc_exp, "mqtt": mqtt_exp, "hooks": hooks_exp}
+            res_obs = {"q_e1": q_e1, "q_e2": q_e2, "event": (ev_q if case["legacy"] else bus), "services": svc_obs, "mqtt": len(subs), "hooks": sorted(hooks)}
             if case["legacy"] and (bus > 1 or (bus == 0) != (ev_q == 0)):
                 res_obs["bus_inconsistent"] = [bus, ev_q]
             if res_exp != res_obs and "problem" not in step:
@@ -450,6 +516,8 @@ async def execute(case):
             "service2global_ctx": dict(Function.service2global_ctx),
             "our_tasks": len([t for t in Function.our_tasks if not t.done()]),
             "task2cb": len(Function.task2cb),
+            "mqtt_subs": len(subs),
+            "webhooks": sorted(hooks),
         }
         errs = [e[2][-400:] for e in it.errors()]
         State.get_service_params = classmethod(orig_gsp)
@@ -460,7 +528,8 @@ async def execute(case):
     return {"problem": problem, "where": where, "left": left, "errors": errs}
 
 
-CLEAN = {"State.notify": {}, "Event.notify": {}, "bus_ev1": 0, "services": [], "service_cnt": {}, "service2global_ctx": {}, "our_tasks": 0, "task2cb": 0}
+CLEAN = {"State.notify": {}, "Event.notify": {}, "bus_ev1": 0, "services": [], "service_cnt": {}, "service2global_ctx": {}, "our_tasks": 0, "task2cb": 0,
+         "mqtt_subs": 0, "webhooks": []}
 
 
 class C09(ModelCheck):
@@ -468,12 +537,12 @@ class C09(ModelCheck):
     rule = (
         "sequences of 3-14 operations over 1-2 contexts, code evaluated the way a Jupyter cell is: define / redefine a "
         "function carrying any mix of @state_trigger (an expression watching the value, .old and an attribute of one "
-        "entity plus a second entity), @event_trigger, @time_trigger (periodic, optionally 'startup'/'shutdown') and "
-        "@service; del; rebind to a constant; closures created by a factory and stored in a list / dict, popped, "
+        "entity plus a second entity), @event_trigger, @time_trigger (periodic, optionally 'startup'/'shutdown'), "
+        "@mqtt_trigger, @webhook_trigger (both through recording fakes of Home Assistant's API boundary) and @service; del; rebind to a constant; closures created by a factory and stored in a list / dict, popped, "
         "deleted, cleared; rewrite the file and reload; delete the file and reload; finally unload - interleaved with "
-        "occurrences (state change, event, 3 s clock advance, service call); garbage collection forced after every "
+        "occurrences (state change, event, 3 s clock advance, service call, MQTT message, webhook request); garbage collection forced after every "
         "step; both subsystems, the shard index is the hash seed; pyscript must not log an error of its own meanwhile (only the rejection of a service name owned by another context). Oracle: a model of live function generations - every "
-        "occurrence is recorded by exactly the live generations; State.notify queues per entity, event listeners and "
+        "occurrence is recorded by exactly the live generations; State.notify queues per entity, event listeners, MQTT subscriptions, registered webhook ids and "
         "registered services equal what the model derives after every step; startup/shutdown run once per "
         "definition/removal; after unload every pyscript table is empty and the bus has no pyscript listeners left. "
         "Non-trivial = a deactivation followed by an occurrence; distinct by sequence."
